@@ -1127,7 +1127,9 @@ def exec (md : Module) (ins : Instr) (orc : Oracle) : M Unit := do
     let (gp, fip) ← getFunc (← rdAddr sp)
     modify fun vm => callP vm gp fip
   | .SLIDE => do
-    if ins.w0 == 0 then pure () else
+    -- q = 0 moves nothing but is a collection point all the same (repo fix 814fea8: a zero-parameter self tail loop whose body is one
+    -- expression executes no other SLIDE / RET and ran out of memory with bounded live data)
+    if ins.w0 == 0 then gcRun else
     set (← liftE (slideP (← get) ins.w0 ins.w1))
     gcRun
   | .CLEAR_STACK => modify fun vm => clearStackP vm ins.w0
